@@ -90,8 +90,14 @@ def check_cfg(F, R, cfg):
             continue
         if f["name"] == "visit_seq":
             B, msg = seq32(F, fv)
-            (R.ok if B is not None else R.viol)("C16.framing", I(nm), "bytes[i] <- next_element()?.ok_or(invalid_length) for i in 0..32; Ok only after the loop completed" if B is not None else msg,
-                                                *(() if B is not None else (fv.loc(),)))
+            sem = None
+            if B is None:
+                # the loop is not in the indexed `for i in 0..32` form: decide the same facts on the abstract interpreter instead
+                sem = seq32_semantic(F, f, VALIDATORS.get(T, (None,))[0], T)
+            if B is not None or (sem and sem[0]):
+                R.ok("C16.framing", I(nm), "bytes[i] <- next_element()?.ok_or(invalid_length) for i in 0..32; Ok only after the loop completed" if B is not None else sem[1])
+            else:
+                R.viol("C16.framing", I(nm), (msg + "; " + sem[1]) if sem else msg, fv.loc())
             if B is not None:
                 # the validated / wrapped bytes are that buffer
                 good = False
@@ -244,6 +250,53 @@ def seq32(F, fv):
             if not fv.F.closures_of(fv.f["key"]):
                 return None, "a next_element() result is not turned into an invalid_length error when None"
     return B, ""
+
+
+def seq32_semantic(F, f, validator_rx, T):
+    """ABSINT form of the framing rule, independent of the loop's syntax: when the validating decoder (or the raw wrapper) is reached,
+    all 32 bytes it receives are values read from the sequence (none is still the buffer's initial constant), and exactly 32 (ed25519: 33,
+    the trailing probe) next_element() calls were executed on that path."""
+    from absint import Interp, TOP
+    from absint_models import Models
+    ip = Interp(F, Models(), step_budget=2_000_000)
+    seen = {"args": [], "reads": 0}
+
+    def on_validator(ip_, g, args, st):
+        for a in args:
+            v = ip_.deref_val(st, a)
+            if v[0] == "st" and len(v[1]) == 1:
+                v = v[1][0]
+            if v[0] == "sl":
+                vals = ip_.models.slice_values(ip_, st, v)
+                v = ("arr", tuple(vals)) if vals else v
+            if v[0] == "arr" and len(v[1]) == 32:
+                seen["args"].append(v[1])
+    hooks = []
+    if validator_rx:
+        hooks.append((re.compile(validator_rx), on_validator))
+    ip.call_contracts = hooks
+    fv = view(F, f)
+    vals = [ip.default_value(fv.locals[i + 1]["ty"]) for i in range(fv.nargs)]
+    try:
+        ret, root_ = ip.run_root(f, vals)
+    except Exception as e:
+        return False, "semantic framing analysis failed: %r" % (e,)
+    reads = sum(n for k, n in ip.unmodelled.items() if re.search(r"SeqAccess.*::next_element", k))
+    if validator_rx is None:
+        # raw 32-byte wrapper: the Ok payload itself
+        if ret is not None and ret[0] == "en":
+            for v, fs in ret[1]:
+                if v == 0 and fs and fs[0][0] == "st" and fs[0][1] and fs[0][1][0][0] == "arr":
+                    seen["args"].append(fs[0][1][0][1])
+    if not seen["args"]:
+        return False, "the validating decoder is never reached with a 32-byte buffer in the abstract run"
+    for arr in seen["args"]:
+        const = [i for i, x in enumerate(arr) if x[0] == "i" and x[1] == x[2]]
+        if const:
+            return False, "byte(s) %s of the buffer still hold a constant when the decoder is called: fewer than 32 elements are stored" % const[:4]
+    if reads < 32:
+        return False, "only %d next_element() reads happen before the decoder" % reads
+    return True, "all 32 bytes handed to the decoder are sequence elements (%d next_element() reads), decided by abstract interpretation (loop not in indexed form)" % reads
 
 
 def trailing_rejected(fv):
